@@ -59,6 +59,12 @@ Expect(s, ev) ==
                  ELSE L!CommonPrefix(ev.ta, ev.tb, 1) >= Len(ev.tb) - ev.slack,
           why |-> "pc " \o ev.routine \o ": instruction sequence depends on the data"
                   \o (IF ev.mode = "same" THEN "" ELSE " before the verdict")]
+    \* C09, dispatch of the Block interface: a call of Encrypt / Decrypt on the cipher NewCipher hands out, on a CPU
+    \* where the accelerated path is selected, runs the one-block assembly kernel (a breakpoint at its entry is hit) -
+    \* not the portable table-driven round function, whose memory addresses depend on key and data
+    [] ev.op = "pc.entered" ->
+         [st |-> s, ok |-> ev.entered,
+          why |-> "pc " \o ev.call \o ": the accelerated path is available but the call never entered " \o ev.routine]
     [] ev.op = "leak.schedule" ->
          [st |-> s,
           ok |-> \A i \in 1..Len(ev.expect) : Count(ev.records, ev.expect[i].sym) = ev.expect[i].n,
